@@ -500,8 +500,17 @@ fn parse_inner<J: Jet>(
                 }
             };
 
-            let name = Option::<Arc<str>>::clone(&data.node.name)
-                .unwrap_or_else(|| Arc::from(namer.assign_name(inner.as_ref()).as_str()));
+            let name = Option::<Arc<str>>::clone(&data.node.name).unwrap_or_else(|| {
+                let mut name = namer.assign_name(inner.as_ref());
+                // Do not invent a name that the user has given to another expression.
+                // (The name of a typed hole is the user's own and is never reassigned.)
+                if !matches!(inner, node::Inner::Witness(WitnessOrHole::TypedHole(..))) {
+                    while resolved_map.contains_key(name.as_str()) {
+                        name = namer.assign_name(inner.as_ref());
+                    }
+                }
+                Arc::from(name.as_str())
+            });
 
             let node = NamedConstructNode::new(
                 &inference_context,
